@@ -63,7 +63,13 @@ MkLeaf(kind, id, s) ==
     [] kind = "cadd0" -> [k |-> "cadd", id |-> id, shape |-> s, cs |-> <<>>]        \* a scalar condition
     [] kind = "scan" -> [k |-> "scan", ids |-> <<id, id + 1>>, shape |-> s]
     [] OTHER -> [k |-> kind, id |-> id, shape |-> s]
-Init == /\ \E kind \in LeafKinds, s \in Shapes : (kind \in {"tril", "triu"} => Len(s) = 1) /\ p = MkLeaf(kind, 1, s)
+\* an unconditional wrapper around a leaf as a starting point too, so that already the depth-1 compositions put it next to
+\* a conditional part (it is then handed a condition it has to ignore)
+WrappedLeaf(s) == {[k |-> "reshape", p |-> MkLeaf("aff", 1, <<Prod(s)>>), shape |-> s, cs |-> None],
+                   [k |-> "invert", p |-> MkLeaf("aff", 1, s)],
+                   [k |-> "partial", p |-> MkLeaf("aff", 1, s), shape |-> <<2>> \o s, idx |-> [kind |-> "int", i |-> 1]]}
+Init == /\ \/ \E kind \in LeafKinds, s \in Shapes : (kind \in {"tril", "triu"} => Len(s) = 1) /\ p = MkLeaf(kind, 1, s)
+           \/ \E s \in Shapes : Len(s) # 1 /\ p \in WrappedLeaf(s)
         /\ depth = 0 /\ res = Eval(p)
 
 CanWrap == depth < MaxDepth /\ res.valid
